@@ -18,6 +18,7 @@ as a violation.
 import errno
 import io
 import logging
+import json
 import os
 import select
 import socket
@@ -501,6 +502,53 @@ def lifecycle_call(srv, op, bind, port):
             blocker.close()
 
 
+def _stuck_report(threads_):
+    """stacks of threads that did not return, and whether ALL of them are parked in a blocking primitive below
+    vinegar's start()/stop() (= a deadlock or an endless wait of the code under test, not a stalled machine)"""
+    import traceback as _tb
+    frames = sys._current_frames()
+    stacks, parked = [], 0
+    for t in threads_:
+        fr = frames.get(t.ident)
+        st = _tb.extract_stack(fr) if fr is not None else []
+        in_vinegar = any("vinegar/" in f.filename and f.name in ("start", "stop") for f in st)
+        top = st[-1] if st else None
+        blocking = top is not None and (top.name in ("acquire", "wait", "join", "_wait_for_tstate_lock", "__enter__", "shutdown")
+                                        or (top.line or "").strip().startswith("with self._"))
+        if in_vinegar and blocking:
+            parked += 1
+        stacks.append(["%s:%d %s" % (f.filename.rsplit("/", 1)[-1], f.lineno, f.name) for f in st[-6:]])
+    return stacks, parked == len(threads_) and parked > 0
+
+
+LIFECYCLE_DEADLINE_S = float(os.environ.get("VERIF_LIFECYCLE_DEADLINE_S", "30"))
+_deadlocks_seen = [0]     # after the first deadlock in this worker the watchdog waits only briefly
+
+
+def guarded_lifecycle_call(srv, op, bind, port):
+    """lifecycle_call with a watchdog: (result, None) or (None, stacks) if the call does not return"""
+    box = {}
+
+    def run():
+        try:
+            box["r"] = lifecycle_call(srv, op, bind, port)
+        except BaseException as e:  # noqa
+            box["e"] = e
+
+    t = threading.Thread(target=run, name="vh-life-seq", daemon=True)
+    t.start()
+    t.join(LIFECYCLE_DEADLINE_S if not _deadlocks_seen[0] else 3.0)
+    if t.is_alive():
+        stacks, parked = _stuck_report([t])
+        if parked:
+            _deadlocks_seen[0] += 1
+            return None, stacks
+        raise InfraTimeout("lifecycle call did not return: " + json.dumps(stacks)[:500])
+    if "e" in box:
+        raise box["e"]
+    return box.get("r"), None
+
+
 def run_lifecycle(case):
     setup()
     deadline = time.monotonic() + IO_DEADLINE_S
@@ -516,7 +564,13 @@ def run_lifecycle(case):
         if case["mode"] == "seq":
             steps = []
             for op in case["steps"]:
-                exc = lifecycle_call(srv, op, bind, port)
+                exc, stuck_stacks = guarded_lifecycle_call(srv, op, bind, port)
+                if stuck_stacks is not None:
+                    out["deadlock"] = True
+                    out["stacks"] = stuck_stacks
+                    out["steps"] = steps
+                    out["exc_logs"] = _state["collector"].take()
+                    return out
                 p = probe(port, bind, baseline, exc is not None, deadline)
                 wait_request_threads_done(baseline, deadline)
                 steps.append({"op": op, "exc": exc, "probe": p})
@@ -542,11 +596,24 @@ def run_lifecycle(case):
                    for i, ops in enumerate(case["threads"])]
             for t in ths:
                 t.start()
+            life_deadline = time.monotonic() + (LIFECYCLE_DEADLINE_S if not _deadlocks_seen[0] else 3.0)
             for t in ths:
-                t.join(max(1.0, deadline - time.monotonic()))
-                if t.is_alive():
-                    # cannot tell a deadlock from a stalled machine: infrastructure, with the facts
-                    return {"infrastructure": [("timeout", "lifecycle calls did not return (possible deadlock)")]}
+                t.join(max(1.0, life_deadline - time.monotonic()))
+            stuck = [t for t in ths if t.is_alive()]
+            if stuck:
+                # lifecycle calls do no I/O beyond bind/listen/shutdown; tell a deadlock of the code under test from a
+                # stalled machine by looking at where the threads are: a thread parked in a blocking primitive
+                # (lock acquire / join / Event.wait) below a frame of vinegar's start()/stop() for the whole time-out
+                # is deadlocked or waiting for ever
+                stacks, all_parked = _stuck_report(stuck)
+                if all_parked:
+                    _deadlocks_seen[0] += 1
+                    out["deadlock"] = True
+                    out["stacks"] = stacks
+                    out["exc_logs"] = _state["collector"].take()
+                    return out
+                return {"infrastructure": [("timeout", "lifecycle calls did not return; not all of them parked in a "
+                                                       "blocking primitive: " + json.dumps(stacks)[:600])]}
             if infra:
                 return {"infrastructure": [("timeout", infra[0])]}
             any_raised = any(e is not None for l in excs for e in l)
@@ -555,10 +622,14 @@ def run_lifecycle(case):
             out["probe"] = probe(port, bind, baseline, any_raised, deadline)
             wait_request_threads_done(baseline, deadline)
     finally:
-        try:
-            srv.stop()
-        except Exception:
-            pass
+        def _final_stop():
+            try:
+                srv.stop()
+            except Exception:
+                pass
+        ft = threading.Thread(target=_final_stop, daemon=True)
+        ft.start()
+        ft.join(1.0 if out.get("deadlock") else LIFECYCLE_DEADLINE_S)
         hygiene_close(srv)
     out["exc_logs"] = _state["collector"].take()
     return out
